@@ -81,7 +81,7 @@ func (a *adapter) Reset(init map[string]tla.Value) (engine.Fields, error) {
 			}
 		}
 	}
-	f["base"] = a.base
+	f["base"] = fullBase(a.base)
 	return f, nil
 }
 
@@ -143,22 +143,28 @@ func (a *adapter) pop() { a.stack, a.ro = a.stack[:len(a.stack)-1], a.ro[:len(a.
 func (a *adapter) execute() (engine.Fields, error) {
 	root := a.root
 	a.root = nil
+	return runProgram(a.w, root, a.base, a.seed, a.beh)
+}
+
+// runProgram compiles and deploys the tree in a fresh committed base block and executes it on the real EVM: twice
+// with ample gas, twice with a seeded starved gas limit below what the ample run used (a real out-of-gas at an
+// arbitrary point), each execution on a fresh account.Manager over the same base block.
+func runProgram(w *world, root *Node, base map[string]map[string]int, seed int64, beh int) (engine.Fields, error) {
 	ample := root.plan()
-	h, err := a.w.deploy(root, a.base)
+	h, err := w.deploy(root, base)
 	if err != nil {
 		return nil, err
 	}
 	input := []byte{byte(root.ID)}
 	run := func(g uint64) map[string]interface{} {
-		return a.w.call(h, addrOf[root.To], input, g, root.Val, true, allNames).fields()
+		return w.call(h, addrOf[root.To], input, g, root.Val, true, allNames).fields()
 	}
-	r1 := a.w.call(h, addrOf[root.To], input, ample, root.Val, true, allNames)
+	r1 := w.call(h, addrOf[root.To], input, ample, root.Val, true, allNames)
 	runs := []map[string]interface{}{r1.fields(), run(ample)}
-	// starved variants: a seeded gas limit below what the ample run used (real out-of-gas at an arbitrary point)
 	used := ample - r1.Left
 	if r1.Crash == "" && used > 1 {
 		hh := fnv.New32a()
-		fmt.Fprintf(hh, "g/%d/%d", a.seed, a.beh)
+		fmt.Fprintf(hh, "g/%d/%d", seed, beh)
 		g := uint64(hh.Sum32()) % used
 		if hh.Sum32()%4 == 0 {
 			g = used - 1
@@ -167,7 +173,18 @@ func (a *adapter) execute() (engine.Fields, error) {
 	}
 	var prog []map[string]interface{}
 	root.actions(&prog)
-	return engine.Fields{"run": true, "tree": root.String(), "prog": prog, "runs": runs}, nil
+	return engine.Fields{"run": true, "strict": true, "tree": root.String(), "prog": prog, "runs": runs}, nil
+}
+
+func fullBase(base map[string]map[string]int) map[string]map[string]int {
+	out := map[string]map[string]int{}
+	for _, c := range contractNames {
+		out[c] = map[string]int{}
+		for _, s := range slotNames {
+			out[c][s] = base[c][s]
+		}
+	}
+	return out
 }
 
 func (a *adapter) Close() { a.w.close() }
